@@ -9,13 +9,18 @@ same column-generation loop, round-up and status rule.  The code computes in dou
 in exact rationals; all branch decisions are `eps`-tolerant (`eps = 1e-9`), so on the small
 integer instances of the check both take the same branches.
 
-Nothing is proved *about* the mirror ([S] `master-LP mirror certifies` is open).  It is a
-certifying model: the driver pushes its plan through the verified `checkPlan` and its final dual
-vector through the verified `dualFeasible`/`dualBound`, so every answer it gives is proved for
-that instance; and its returned (status, plan) is compared with the implementation's (R_trace).
+Proved about the mirror for all inputs (Theorems.lean): `cg_mirror_valid` (a usable status comes
+with a plan that passes the verified checker — from the round-up, the demand re-check and the fact
+that the pricing DP only produces patterns that fit), `master_lp_value_is_dual_value` (the LP
+value reported equals `duals · d`, a row-space invariant of the tableau that holds whatever the
+pivots were) and `cg_mirror_optimal_of_duals` (OPTIMAL + the decidable side condition "the
+returned duals pass `dualFeasible`" ⇒ true minimum).  Not proved: that the simplex reaches an LP
+optimum ([S] `master-LP mirror certifies`); eliminations below `eps` are skipped, so the basic
+solution is feasible only up to `eps`.  The driver evaluates the side conditions and the verified
+checkers on the mirror's output for every explored input, and its returned (status, plan) is
+compared with the implementation's (R_trace).
 
-Mirrors the code with the proposed fixes C17_a (`drive_out_artificials`) and C17_d
-(`converged` flag) applied.
+Mirrors the repaired code (fixes C17_a `drive_out_artificials`, C17_d `converged` flag).
 -/
 namespace Solvor.Cut.Mirror
 open Solvor.Cut
@@ -116,18 +121,25 @@ def readX (t : Tab) (basis : List Nat) (nRows rhs j : Nat) : Rat :=
   | some i => let v := tget t i rhs; if v < 0 then 0 else v
   | none => 0
 
-/-- Row `i` of the master LP `Ax − s + a = d`. -/
-def masterRow (cols : List Pat) (d : List Nat) (m i : Nat) : Row :=
-  (cols.map fun c => ((c.getD i 0 : Nat) : Rat)) ++
-  ((List.range m).map fun k => if k == i then (-1 : Rat) else 0) ++
-  ((List.range m).map fun k => if k == i then (1 : Rat) else 0) ++
-  [((d.getD i 0 : Nat) : Rat)]
+/-- Demand row `i` of the (bounded) master LP, `A x − s + a = d`: columns are `x` (`n`), demand
+surplus (`m`), slacks of upper bounds (`nU`), surplus of lower bounds (`nL`), artificials
+(`m + nL`), right-hand side.  `nU = nL = 0` is the tableau of `_solve_master_lp`. -/
+def demandRow (cols : List Pat) (d : List Nat) (nU nL i : Nat) : Row :=
+  let n := cols.length
+  let m := d.length
+  let aBase := n + m + nU + nL
+  (List.range (aBase + m + nL + 1)).map fun j =>
+    if j < n then (((cols.getD j []).getD i 0 : Nat) : Rat)
+    else if j = n + i then -1
+    else if j = aBase + i then 1
+    else if j = aBase + m + nL then ((d.getD i 0 : Nat) : Rat)
+    else 0
 
 /-- The two-phase run of `_solve_master_lp` on `min Σx, Ax − s + a = d`. -/
 def masterCore (cols : List Pat) (d : List Nat) (eps : Rat) : Option (Tab × List Nat) :=
   let m := d.length
   let n := cols.length
-  lpCore eps ((List.range m).map (masterRow cols d m)) (List.replicate m true)
+  lpCore eps ((List.range m).map (demandRow cols d 0 0)) (List.replicate m true)
     (fun j => n + m ≤ j && j < n + 2 * m) ((List.range m).map fun i => n + m + i) (n + m) n (n + 2 * m + 1)
 
 /-- `_solve_master_lp`: `(x_vals, duals, objective)`, objective `none` = `inf`. -/
